@@ -378,6 +378,11 @@ def run(res, tier, seed, shard, nshards):
                     from .. import gen as _gen
 
                     prof.grid = _gen.EPOCH_GRID
+                if h % 5 == 4:  # stored instants later than the wall clock, next to points stamped at insertion
+                    from .. import gen as _gen
+
+                    prof.grid = _gen.FUTURE_GRID
+                    res.count("future_dated_histories")
                 if h % 5 == 2:  # hundreds of rows
                     prof.max_rows = 400
                     prof.min_ops, prof.max_ops = 3, 6
@@ -398,6 +403,7 @@ def run(res, tier, seed, shard, nshards):
     res.require("csv_sequences")
     res.require("random_history_ops")
     res.require("long_random_histories")
+    res.require("future_dated_histories")
     res.assumptions += [
         "the answer battery is finite: equivalence is decided on its answers (all getters, len/empty/latest_time and ~150 "
         "searches per state), not on private arrays; structural drift of private arrays is only logged as a diagnostic",
